@@ -567,6 +567,10 @@ def _diff_positions(a, b, limit=4096):
 
 
 class C06(Check):
+    def _entsize_known(self):
+        from vlib import core as _core
+        return any(e.get('status') == 'known' and e['signature'] == 'entsize-by-grouping' for e in _core.load_known('C06'))
+
     prop = "C06"
     level = "exploration"
     technique = ("metamorphic PBT: byte comparison of wild's output under generated (threads, files-per-group, experiments, "
@@ -734,7 +738,7 @@ class C06(Check):
                     info["counters"]["unreproduced_failure"] = info["counters"].get("unreproduced_failure", 0) + 1
                 continue
             sig, masked, vec = analyse_diff(ref, got, ents, v)
-            if masked and not ctx.strict:
+            if masked and not ctx.strict and self._entsize_known():
                 info["counters"]["masked:entsize-by-grouping"] = info["counters"].get("masked:entsize-by-grouping", 0) + 1
                 h = hashlib.sha1(got).hexdigest()
                 if vec in by_vec and by_vec[vec][0] != h:
